@@ -242,7 +242,8 @@ def run(prop, tier, seed, nshards_opt, workdir, t_start, write_evidence) -> int:
                 other = [d for d in fired if d not in known_desc]
                 if other:
                     regress.append((e, other))
-            else:  # fixed: suppresses nothing; its witness must now pass
+            else:  # fixed: suppresses nothing; its witness must now pass (a LISTED finding it also meets is not its business)
+                fired = [d for d in fired if d not in known_desc]
                 if fired:
                     regress.append((e, fired))
         for r in kcol.inconclusive:
